@@ -160,6 +160,10 @@ def _flatten_keeps_relations(self, prog, res):
             ref = link.reference_node
             # (a block without content leaves nothing behind that a flattened circuit could refer to)
             if ref is not None and ref.decomposed_operations():
+                # (a block whose content starts before the block itself - an operation joined to the end of a shorter one - reports
+                # an end that is not the end of its content; the statement of C04 sets that case aside, so does this clause)
+                if hasattr(ref, 'get_sub_composite_operations') and min(x.start_time for x in ref.decomposed_operations()) < ref.start_time - 1e-9:
+                    continue
                 given.append((i, ref, link.relation_type))
     bf.circ.flatten()
     world.clear_memo()
@@ -194,6 +198,9 @@ def families_for(want, tier):
             fams.append(SchedFamily(FlatSpace(3), cfgname, want, unroll=False))
         fams.append(SchedFamily(NestedSpace1(3), 'G', want, unroll=True))
         fams.append(SchedFamily(NestedSpace1(2, reps=(1, 2, 3), bodies=N1_BODIES + N1_BODIES_EXTRA), 'H', want, unroll=True))
+        xs = NestedSpace1(2, reps=(1, 2), bodies=N1_BODIES_EXTRA)     # the extra bodies under the other configuration as well (which operation ends last depends on it)
+        xs.name = 'N1X'
+        fams.append(SchedFamily(xs, 'G', want, unroll=True))
         fams.append(SchedFamily(NestedSpace2(2), 'G', want, unroll=False))
         fams.append(SchedFamily(FlatSpace(2), 'Z', want, unroll=False))
         fams.append(SchedFamily(NestedSpace1(2), 'Z', want, unroll=True))
